@@ -596,7 +596,8 @@ class _SetOperation(Selectable, Term):  # type:ignore[misc]
             if isinstance(field, int) and not isinstance(field, bool):
                 field = _column_position(field)  # type:ignore[assignment]
             field = (
-                Field(field, table=self.base_query._from[0])  # type:ignore[assignment]
+                # a name addresses a column of the result: the operands need not have a FROM clause at all
+                Field(field, table=next(iter(self.base_query._from), None))  # type:ignore[assignment]
                 if isinstance(field, str)
                 else self.base_query.wrap_constant(field)
             )
@@ -793,11 +794,13 @@ class _SetOperation(Selectable, Term):  # type:ignore[misc]
         clauses = []
         selected_aliases = {s.alias for s in self.base_query._selects}
         for field, directionality in self._orderbys:
-            term = (
-                format_identifier(field.alias, ctx.quote_char)
-                if field.alias and field.alias in selected_aliases
-                else field.get_sql(ctx)
-            )
+            if field.alias and field.alias in selected_aliases:
+                term = format_identifier(field.alias, ctx.quote_char)
+            elif type(field) is Field and not isinstance(field.table, _SetOperation):
+                # a column of the result has no qualifier: the alias of an operand's table is not in scope out here
+                term = format_identifier(field.name, ctx.quote_char)
+            else:
+                term = field.get_sql(ctx)
 
             clauses.append(
                 "{term} {orient}".format(term=term, orient=directionality.value)
